@@ -9,7 +9,7 @@ import (
 	"golang.org/x/tools/go/ssa"
 )
 
-const mapCap = 8
+const mapCap = 16
 
 func (e *Engine) mapData(s *State, m Mp) *MapData { return s.Objs[m.Obj].(*MapData) }
 
